@@ -6,7 +6,7 @@ PROP = {
         "bin": "c13",
         "profiles": ["dev", "release"],
         "coq_timeout": 3000,
-        "rule": "streams: corpus (idna/tests/punycode_tests.json, both directions); tab (which ASCII bytes are digits); exhaustive (all scalar sequences of length <= 4 over {a,-,U+80,U+FC,U+100,U+FFFF,U+10000,U+10FFFF} through encode and encode_str; all strings of length <= 4 (quick) / 5 (thorough) over {a,z,A,0,9,-,!} through decode and decode_to_string; every ASCII byte in four contexts); random (sequences <= 40 and <= 3000 scalars with repeated / ordered / reverse-ordered / clustered code points; decode of encoder output and of its mutations; random decoder inputs with non-ASCII; long digit runs for decoder overflow); the boundary family U+0080 x n ++ [high] around F-C13-1 (n = 3854..3856 quick, 3850..3860 x 4 high code points x 3 shapes thorough); the internal-caller encoder observed through domain_to_ascii on labels UTS #46 leaves unchanged. Both cargo profiles (dev = overflow checks on, model cfg_debug = true; release = wrapping, cfg_debug = false). A case is non-trivial when its input is non-empty.",
+        "rule": "streams: corpus (idna/tests/punycode_tests.json, both directions); tab (which ASCII bytes are digits); exhaustive (all scalar sequences of length <= 4 over {a,-,U+80,U+FC,U+100,U+FFFF,U+10000,U+10FFFF} through encode and encode_str; all strings of length <= 4 (quick) / 5 (thorough) over {a,z,A,0,9,-,!} through decode and decode_to_string; every ASCII byte in four contexts); random (sequences <= 40 and <= 3000 scalars with repeated / ordered / reverse-ordered / clustered code points; decode of encoder output and of its mutations; random decoder inputs with non-ASCII; long digit runs for decoder overflow); the boundary family U+0080 x n ++ [high] around F-C13-1 (n = 3854..3856 quick, 3850..3860 x 3 shapes thorough; high = U+10FE4F, U+10FFFF); the internal-caller encoder observed through domain_to_ascii on labels UTS #46 leaves unchanged. Both cargo profiles (dev = overflow checks on, model cfg_debug = true; release = wrapping, cfg_debug = false). A case is non-trivial when its input is non-empty.",
         "trusted_base": [
             "tools/tables_c13.py (reader for the Bootstring constants and the digit match arms of idna/src/punycode.rs)",
             "the internal-caller instantiations of Decoder::decode (u8 and char) are crate-private: modelled, and tied to the code only through the shared decoder loop exercised by the public wrappers; the internal-caller encoder is tied through domain_to_ascii",
